@@ -1145,6 +1145,125 @@ theorem C15_pretc_dollar_shifts_witness :
     loopReadTC false true es [Tok.lit (.tok "5") .null, Tok.star, Tok.lit (.tok "6") .null] = (.null, [.tok "5", .tok "6"]) := by
   decide
 
+/-! ### complex instances whose parts carry redefining entries (`complexReadLS`), both encodings -/
+
+theorem partAttrSevL_cleanS {strict s : Bool} (hs : attrStrict strict = s) {es ts} (h : CleanSlots s es ts) (acc : Sev) :
+    partAttrSevL true strict acc es ts = acc := by
+  induction h generalizing acc with
+  | nil => rfl
+  | @attr a t es ts h1 _ ih => simp only [partAttrSevL, hs]; rw [ih, h1, mergeAttr_null_right]; simp
+  | @red es ts _ _ ih => simp only [partAttrSevL, if_true]; exact ih acc
+
+theorem partAttrSevL_cleanP {strict s : Bool} (hs : attrStrict strict = s) {es ts} (h : CleanPre s es ts) (acc : Sev) :
+    partAttrSevL false strict acc es ts = acc := by
+  induction h generalizing acc with
+  | nil => rfl
+  | @attr a t es ts h1 _ ih => simp only [partAttrSevL, hs]; rw [ih, h1, mergeAttr_null_right]; simp
+  | @red es ts _ ih => simp only [partAttrSevL, Bool.false_eq_true, if_false, List.tail_cons]; exact ih acc
+
+theorem partAttrSevL_atS {strict s : Bool} (hs : attrStrict strict = s) {es₁ ts₁ es₂ ts₂} (a : AttrD) (t : Tok)
+    (h₁ : CleanSlots s es₁ ts₁) (h₂ : CleanSlots s es₂ ts₂) (acc : Sev) :
+    partAttrSevL true strict acc (es₁ ++ Slot.attr a :: es₂) (ts₁ ++ t :: ts₂)
+      = if a.derived then acc else mergeAttr acc (attrRead s a t).1 := by
+  induction h₁ generalizing acc with
+  | nil => simp only [List.nil_append, partAttrSevL, hs]; exact partAttrSevL_cleanS hs h₂ _
+  | @attr a' t' es ts h1 _ ih => simp only [List.cons_append, partAttrSevL, hs]; rw [ih, h1, mergeAttr_null_right]; simp
+  | @red es ts _ _ ih => simp only [List.cons_append, partAttrSevL, if_true]; exact ih acc
+
+theorem partAttrSevL_atP {strict s : Bool} (hs : attrStrict strict = s) {es₁ ts₁ es₂ ts₂} (a : AttrD) (t : Tok)
+    (h₁ : CleanPre s es₁ ts₁) (h₂ : CleanPre s es₂ ts₂) (acc : Sev) :
+    partAttrSevL false strict acc (es₁ ++ Slot.attr a :: es₂) (ts₁ ++ t :: ts₂)
+      = if a.derived then acc else mergeAttr acc (attrRead s a t).1 := by
+  induction h₁ generalizing acc with
+  | nil => simp only [List.nil_append, partAttrSevL, hs]; exact partAttrSevL_cleanP hs h₂ _
+  | @attr a' t' es ts h1 _ ih => simp only [List.cons_append, partAttrSevL, hs]; rw [ih, h1, mergeAttr_null_right]; simp
+  | @red es ts _ ih =>
+    simp only [List.cons_append, partAttrSevL, Bool.false_eq_true, if_false, List.tail_cons]; exact ih acc
+
+/-- conforming parts in encoding `tc` -/
+def CleanPartsL (tc s : Bool) (ps : List (List Slot × List Tok)) : Prop :=
+  ∀ p ∈ ps, if tc then CleanSlots s p.1 p.2 else CleanPre s p.1 p.2
+
+theorem loopReadTC_clean {tc strict s : Bool} (hs : attrStrict strict = s) {es ts}
+    (h : if tc then CleanSlots s es ts else CleanPre s es ts) : (loopReadTC tc strict es ts).1 = .null := by
+  cases tc with
+  | true => simp only [loopReadTC, if_true]; exact loopReadR_cleanS hs _ (by simpa using h) _
+  | false => simp only [loopReadTC, Bool.false_eq_true, if_false]; exact loopReadPre_clean hs _ (by simpa using h) _
+
+theorem partAttrSevL_clean {tc strict s : Bool} (hs : attrStrict strict = s) {es ts}
+    (h : if tc then CleanSlots s es ts else CleanPre s es ts) (acc : Sev) : partAttrSevL tc strict acc es ts = acc := by
+  cases tc with
+  | true => exact partAttrSevL_cleanS hs (by simpa using h) acc
+  | false => exact partAttrSevL_cleanP hs (by simpa using h) acc
+
+theorem foldl_partAttrSevL_clean {tc strict s : Bool} (hs : attrStrict strict = s) (ps : List (List Slot × List Tok))
+    (h : CleanPartsL tc s ps) (acc : Sev) : ps.foldl (fun acc p => partAttrSevL tc strict acc p.1 p.2) acc = acc := by
+  induction ps generalizing acc with
+  | nil => rfl
+  | cons p ps ih =>
+    simp only [List.foldl_cons]
+    rw [partAttrSevL_clean hs (h p (by simp))]
+    exact ih (fun x hx => h x (by simp [hx])) acc
+
+/-- a conforming complex instance whose parts carry redefining entries reads clean, either encoding, either mode (code shape) -/
+theorem C15_complex_redefining_conforming (tc fileStrict : Bool) (ps : List (List Slot × List Tok))
+    (h : CleanPartsL tc fileStrict ps) :
+    (complexReadLS repairedShape tc (fileStrictFor true fileStrict) ps).1 = .null := by
+  have hs := (C15_strict_plumbing fileStrict).2.1
+  cases ps with
+  | nil => rfl
+  | cons p ps =>
+    simp only [complexReadLS, repairedShape]
+    rw [loopReadTC_clean hs (h p (by simp)), foldl_partAttrSevL_clean hs ps (fun x hx => h x (by simp [hx]))]
+    rfl
+
+/-- the decision table at ANY attribute position of ANY part of such an instance, in either encoding (code shape: C15-7 + C15-8):
+    the instance's severity is what the attribute's own read decided (`C15_attr_*`).  Excluded, as for internally mapped instances:
+    an absent value that is the last of its part in the technical-corrigendum encoding (`hlast`); a position flagged derived in a
+    part other than the first (`ha`). -/
+theorem C15_complex_redefining_position (tc fileStrict : Bool) (ps₁ ps₂ : List (List Slot × List Tok)) {es₁ ts₁ es₂ ts₂}
+    (a : AttrD) (t : Tok) (hp₁ : CleanPartsL tc fileStrict ps₁) (hp₂ : CleanPartsL tc fileStrict ps₂)
+    (h₁ : if tc then CleanSlots fileStrict es₁ ts₁ else CleanPre fileStrict es₁ ts₁)
+    (h₂ : if tc then CleanSlots fileStrict es₂ ts₂ else CleanPre fileStrict es₂ ts₂)
+    (hlast : tc = true → t :: ts₂ ≠ [Tok.missing false]) (ha : a.derived = false) :
+    (complexReadLS repairedShape tc (fileStrictFor true fileStrict)
+      (ps₁ ++ (es₁ ++ Slot.attr a :: es₂, ts₁ ++ t :: ts₂) :: ps₂)).1 = (attrRead fileStrict a t).1 := by
+  have hs := (C15_strict_plumbing fileStrict).2.1
+  have hpos : (loopReadTC tc (partStrict (fileStrictFor true fileStrict)) (es₁ ++ Slot.attr a :: es₂) (ts₁ ++ t :: ts₂)).1
+      = (attrRead fileStrict a t).1 := by
+    cases tc with
+    | true => exact loopRead_position hs a t (by simpa using h₁) (by simpa using h₂) (hlast rfl)
+    | false => exact C15_pretc_position hs a t (by simpa using h₁) (by simpa using h₂)
+  have hat : ∀ acc, partAttrSevL tc (partStrict (fileStrictFor true fileStrict)) acc (es₁ ++ Slot.attr a :: es₂) (ts₁ ++ t :: ts₂)
+      = mergeAttr acc (attrRead fileStrict a t).1 := by
+    intro acc
+    cases tc with
+    | true => rw [partAttrSevL_atS hs a t (by simpa using h₁) (by simpa using h₂)]; simp [ha]
+    | false => rw [partAttrSevL_atP hs a t (by simpa using h₁) (by simpa using h₂)]; simp [ha]
+  cases ps₁ with
+  | nil =>
+    simp only [List.nil_append, complexReadLS, repairedShape]
+    rw [hpos, foldl_partAttrSevL_clean hs ps₂ hp₂, greater_null_right]
+  | cons p ps =>
+    simp only [List.cons_append, complexReadLS, repairedShape, List.foldl_append, List.foldl_cons]
+    rw [loopReadTC_clean hs (hp₁ p (by simp)), foldl_partAttrSevL_clean hs ps (fun x hx => hp₁ x (by simp [hx])), hat,
+      foldl_partAttrSevL_clean hs ps₂ hp₂, greater_null_left, mergeAttr_null_left]
+
+/-- the experiment's instance `(CA(5)CB(6)CR(7))`, CA = [redefining cr.n, x : INTEGER]: conforming in both encodings (`CA(5)` /
+    `CA(*,5)`); `CA($)` is INCOMPLETE in strict mode in both encodings (in the older one the `$` stands at the redefining entry), and a
+    user message with 0 substituted in lenient mode (technical-corrigendum encoding) -/
+theorem C15_complex_redefining_example :
+    let x : AttrD := ⟨.integer, false, false, false, false⟩
+    let ca := [Slot.redefining, Slot.attr x]
+    let cb := ([Slot.attr x], [Tok.lit (.tok "6") .null])
+    let five := Tok.lit (.tok "5") .null
+    (complexReadLS repairedShape true true [(ca, [five]), cb]).1 = .null ∧
+    (complexReadLS repairedShape false true [(ca, [Tok.star, five]), cb]).1 = .null ∧
+    (complexReadLS repairedShape false true [(ca, [Tok.missing true]), cb]).1 = .incomplete ∧
+    (complexReadLS repairedShape true true [(ca, [Tok.missing true]), cb]).1 = .incomplete ∧
+    (complexReadLS repairedShape true false [(ca, [Tok.missing true]), cb]).1 = .usermsg := by
+  decide
+
 /-! ### the mode that reaches the reader is the mode the caller asked for -/
 
 open StepModel.ModeGlue in
